@@ -136,6 +136,12 @@ fn history(cfg: &Cfg, rep: &mut Report, h: u64, rounds: usize) {
     // registry reports back: a rule that loses its expiry must not keep authorizing
     let mut vu_model: std::collections::BTreeMap<u32, Option<u32>> = Default::default();
     vu_model.insert(0, None);
+    // the rule set as the edits that SUCCEEDED imply it: id -> (type, signers in order, policies); compared
+    // with what the account reports after every batch of edits, so that a rule silently overwritten or
+    // an edit reported as done but not applied does not let the account vouch for itself
+    let mut emodel: std::collections::BTreeMap<u32, (ContextRuleType, Vec<Signer>, Vec<Address>)> = Default::default();
+    emodel.insert(0, (ContextRuleType::Default, vec![u.signers[0].clone()], vec![]));
+    let mut ever_ids: BTreeSet<u32> = [0u32].into_iter().collect();
     for round in 0..rounds {
         // ---------------- edit the rule set ----------------
         let rules = read_rules(&u);
@@ -180,6 +186,9 @@ fn history(cfg: &Cfg, rep: &mut Report, h: u64, rounds: usize) {
                 r = invoke(e, &account, "add_context_rule", args!(e, t, SString::from_str(e, "r"), vu, sv, pm));
                 if let Ok(v) = &r {
                     if let Ok(cr) = ContextRule::try_from_val(e, v) {
+                        rep.check("registry", !ever_ids.contains(&cr.id), "C03/registry/rule-id-assigned-twice", || format!("add_context_rule returned id {} which an earlier rule already had (ids so far {ever_ids:?})", cr.id));
+                        ever_ids.insert(cr.id);
+                        emodel.insert(cr.id, (t.clone(), sv.iter().collect(), pm.keys().iter().collect()));
                         vu_model.insert(cr.id, vu);
                         if let Some(tt) = thr {
                             thresholds.insert(cr.id, tt);
@@ -190,11 +199,19 @@ fn history(cfg: &Cfg, rep: &mut Report, h: u64, rounds: usize) {
                 let Some(rl) = pick_rule(&mut rng) else { continue };
                 desc = format!("remove_context_rule {}", rl.id);
                 r = invoke(e, &account, "remove_context_rule", args!(e, rl.id));
+                if r.is_ok() {
+                    emodel.remove(&rl.id);
+                }
             } else if k < 64 {
                 let Some(rl) = pick_rule(&mut rng) else { continue };
                 let s = rng.pick(&u.signers).clone();
                 desc = format!("add_signer rule {}", rl.id);
-                r = invoke(e, &account, "add_signer", args!(e, rl.id, s));
+                r = invoke(e, &account, "add_signer", args!(e, rl.id, s.clone()));
+                if r.is_ok() {
+                    if let Some(x) = emodel.get_mut(&rl.id) {
+                        x.1.push(s.clone());
+                    }
+                }
             } else if k < 74 {
                 let Some(rl) = pick_rule(&mut rng) else { continue };
                 if rl.signers.is_empty() {
@@ -202,12 +219,22 @@ fn history(cfg: &Cfg, rep: &mut Report, h: u64, rounds: usize) {
                 }
                 let s = rng.pick(&rl.signers).clone();
                 desc = format!("remove_signer rule {}", rl.id);
-                r = invoke(e, &account, "remove_signer", args!(e, rl.id, s));
+                r = invoke(e, &account, "remove_signer", args!(e, rl.id, s.clone()));
+                if r.is_ok() {
+                    if let Some(x) = emodel.get_mut(&rl.id) {
+                        x.1.retain(|y| *y != s);
+                    }
+                }
             } else if k < 82 {
                 let Some(rl) = pick_rule(&mut rng) else { continue };
                 let p = rng.pick(&u.policies).clone();
                 desc = format!("add_policy rule {}", rl.id);
-                r = invoke(e, &account, "add_policy", args!(e, rl.id, p, Val::VOID.to_val()));
+                r = invoke(e, &account, "add_policy", args!(e, rl.id, p.clone(), Val::VOID.to_val()));
+                if r.is_ok() {
+                    if let Some(x) = emodel.get_mut(&rl.id) {
+                        x.2.push(p.clone());
+                    }
+                }
             } else if k < 88 {
                 let Some(rl) = pick_rule(&mut rng) else { continue };
                 if rl.policies.is_empty() {
@@ -215,7 +242,12 @@ fn history(cfg: &Cfg, rep: &mut Report, h: u64, rounds: usize) {
                 }
                 let p = rng.pick(&rl.policies).clone();
                 desc = format!("remove_policy rule {}", rl.id);
-                r = invoke(e, &account, "remove_policy", args!(e, rl.id, p));
+                r = invoke(e, &account, "remove_policy", args!(e, rl.id, p.clone()));
+                if r.is_ok() {
+                    if let Some(x) = emodel.get_mut(&rl.id) {
+                        x.2.retain(|y| *y != p);
+                    }
+                }
             } else {
                 let Some(rl) = pick_rule(&mut rng) else { continue };
                 let vu: Option<u32> = match rng.below(4) {
@@ -241,6 +273,16 @@ fn history(cfg: &Cfg, rep: &mut Report, h: u64, rounds: usize) {
         let _ = rules;
         // scripts for the mock policies
         let mut rules = read_rules(&u);
+        {
+            type Row = (u32, ContextRuleType, Vec<Signer>, BTreeSet<Address>);
+            let mut got: Vec<Row> = rules.iter().map(|r| (r.id, r.ctype.clone(), r.signers.clone(), r.policies.iter().cloned().collect())).collect();
+            got.sort_by_key(|x| x.0);
+            let want: Vec<Row> = emodel.iter().map(|(id, (t, sg, po))| (*id, t.clone(), sg.clone(), po.iter().cloned().collect())).collect();
+            rep.check("registry", got == want, "C03/registry/rules-differ-from-edit-history", || {
+                let brief = |v: &Vec<Row>| v.iter().map(|(id, t, sg, po)| format!("#{id}:{t:?}:{}s:{}p", sg.len(), po.len())).collect::<Vec<_>>().join(" ");
+                format!("the account reports rules [{}], the edits that succeeded imply [{}]", brief(&got), brief(&want))
+            });
+        }
         for r in rules.iter_mut() {
             if let Some(v) = vu_model.get(&r.id) {
                 if r.valid_until != *v {
